@@ -215,14 +215,38 @@ fn is_prefix(a: &[u8], of: &[u8]) -> bool {
     a.len() <= of.len() && of[..a.len()] == *a
 }
 
-fn check_prefix(frame_bytes: &[u8], content: &[u8], cut: usize, window: u64) -> CaseResult {
+/// A complete frame with a content checksum (single segment, one raw block "warm-up!").
+fn warm_frame() -> Vec<u8> {
+    let data = b"warm-up!";
+    let mut f = vec![0x28, 0xB5, 0x2F, 0xFD, 0x24, data.len() as u8, ((data.len() as u8) << 3) | 1, 0, 0];
+    f.extend_from_slice(data);
+    f.extend_from_slice(&ringops::xxh64::checksum32(data).to_le_bytes());
+    f
+}
+
+/// A decoder for the prefix checks: new, or (`warm`) one that has completely decoded a checksummed
+/// frame before - what a long-lived decoder looks like when the truncated frame arrives.
+fn prefix_decoder(warm: bool, window: u64) -> Result<FrameDecoder, Failure> {
+    let mut dec = FrameDecoder::new();
+    if warm {
+        let f = warm_frame();
+        let mut out = [0u8; 16];
+        let n = dec.decode_all(&f, &mut out).map_err(|e| Failure::new("valid_input_rejected", format!("warm-up frame {} rejected: {e}", hexhead(&f))))?;
+        ensure!(&out[..n] == b"warm-up!" && dec.is_finished(), "valid_input_rejected", "warm-up frame decoded to {:?}", &out[..n]);
+    }
+    if window > ruzstd::decoding::DEFAULT_MAX_WINDOW_SIZE {
+        dec.set_max_window_size(window);
+    }
+    Ok(dec)
+}
+
+fn check_prefix(frame_bytes: &[u8], content: &[u8], cut: usize, window: u64, warm: bool) -> CaseResult {
     let p = &frame_bytes[..cut];
+    let cut = format!("{cut}{}", if warm { " on a decoder that completed a checksummed frame before" } else { "" });
+    let cut = cut.as_str();
     // reader API: decode_blocks(All)
     {
-        let mut dec = FrameDecoder::new();
-        if window > ruzstd::decoding::DEFAULT_MAX_WINDOW_SIZE {
-            dec.set_max_window_size(window);
-        }
+        let mut dec = prefix_decoder(warm, window)?;
         let mut src = CountingReader { data: p, pos: 0, chunk: 0 };
         let mut delivered = vec![];
         let r = match dec.reset(&mut src) {
@@ -241,10 +265,7 @@ fn check_prefix(frame_bytes: &[u8], content: &[u8], cut: usize, window: u64) -> 
     }
     // StreamingDecoder
     {
-        let mut dec = FrameDecoder::new();
-        if window > ruzstd::decoding::DEFAULT_MAX_WINDOW_SIZE {
-            dec.set_max_window_size(window);
-        }
+        let mut dec = prefix_decoder(warm, window)?;
         let mut delivered = vec![];
         let ended_clean = match StreamingDecoder::new_with_decoder(p, &mut dec) {
             Err(_) => false,
@@ -263,26 +284,30 @@ fn check_prefix(frame_bytes: &[u8], content: &[u8], cut: usize, window: u64) -> 
         ensure!(is_prefix(&delivered, content), "prefix_delivers_wrong_bytes", "streaming: bytes delivered from a {cut}-byte prefix are not a prefix of the content");
     }
     // decode_all (an empty input is zero frames, which is valid)
-    if cut > 0 {
-        let mut dec = FrameDecoder::new();
-        if window > ruzstd::decoding::DEFAULT_MAX_WINDOW_SIZE {
-            dec.set_max_window_size(window);
-        }
+    if !p.is_empty() {
+        let mut dec = prefix_decoder(warm, window)?;
         let mut out = vec![0u8; content.len() + 8];
         let r = dec.decode_all(p, &mut out);
         ensure!(r.is_err(), "prefix_accepted", "decode_all returned {:?} on a strict prefix ({cut} of {} bytes)", r.as_ref().ok(), frame_bytes.len());
     }
     // decode_from_to: wants more, never finished
     {
-        let mut dec = FrameDecoder::new();
-        if window > ruzstd::decoding::DEFAULT_MAX_WINDOW_SIZE {
-            dec.set_max_window_size(window);
-        }
+        let mut dec = prefix_decoder(warm, window)?;
         let mut out = vec![0u8; 4096];
         let mut pos = 0;
         let mut delivered = vec![];
         let mut rounds = 0;
-        loop {
+        let mut header_failed = false;
+        if warm {
+            // decode_from_to starts a frame by itself only on a decoder without state; a used one is
+            // pointed at the new frame with reset(), which reads the header
+            let mut src = p;
+            match dec.reset(&mut src) {
+                Ok(()) => pos = p.len() - src.len(),
+                Err(_) => header_failed = true,
+            }
+        }
+        while !header_failed {
             rounds += 1;
             match dec.decode_from_to(&p[pos..], &mut out) {
                 Err(_) => break,
@@ -299,8 +324,9 @@ fn check_prefix(frame_bytes: &[u8], content: &[u8], cut: usize, window: u64) -> 
                 fail!("from_to_stalls", "decode_from_to loops on a prefix");
             }
         }
-        // state None (init failed) reports finished == true by definition; only a decoder that consumed something counts
-        ensure!(!(dec.bytes_read_from_source() > 0 && dec.is_finished()), "prefix_finished", "decode_from_to: prefix of {cut}/{} bytes reports is_finished()", frame_bytes.len());
+        // state None (init failed) reports finished == true by definition (and a warm decoder whose
+        // init failed still shows its previous, finished frame); only a decoder that consumed something counts
+        ensure!(!(!header_failed && pos > 0 && dec.bytes_read_from_source() > 0 && dec.is_finished()), "prefix_finished", "decode_from_to: prefix of {cut}/{} bytes reports is_finished()", frame_bytes.len());
         ensure!(is_prefix(&delivered, content), "prefix_delivers_wrong_bytes", "decode_from_to: bytes delivered from a {cut}-byte prefix are not a prefix of the content");
     }
     Ok(())
@@ -339,13 +365,24 @@ pub fn check_prefixes(fc: &FrameCase, ctx: &mut CaseCtx) -> CaseResult {
         c.dedup();
         c
     };
+    let mut evals = 0u64;
     for &cut in &cuts {
-        check_prefix(&b.frame, &b.content, cut, rh.window_size).map_err(|mut f| {
-            f.msg = format!("{}; frame {} ({} bytes, {})", f.msg, hexhead(&b.frame), n, b.source);
-            f
-        })?;
+        // every cut on a new decoder; near both ends, for short frames and for every third cut
+        // also on a decoder that has a completed (checksummed) frame behind it
+        let warm_too = n <= 1500 || cut + 8 >= n || cut <= 20 || cut % 3 == 0;
+        for warm in [false, true] {
+            if warm && !warm_too {
+                continue;
+            }
+            evals += 1;
+            check_prefix(&b.frame, &b.content, cut, rh.window_size, warm).map_err(|mut f| {
+                f.msg = format!("{}; frame {} ({} bytes, {})", f.msg, hexhead(&b.frame), n, b.source);
+                f
+            })?;
+        }
     }
-    ctx.weight = cuts.len() as u64;
+    ctx.weight = evals;
+    ctx.feat("prefix:also_on_warm_decoder");
     ctx.feat(if n <= 4096 { "prefix:all_cuts" } else { "prefix:boundary_cuts" });
     ctx.feat_if(rh.checksum, "prefix:cut_inside_checksum");
     let has_comp = frame::walk(&b.frame, &Default::default()).map(|i| i.blocks.iter().any(|b| b.btype == 2)).unwrap_or(false);
@@ -355,7 +392,7 @@ pub fn check_prefixes(fc: &FrameCase, ctx: &mut CaseCtx) -> CaseResult {
 }
 
 pub fn run(eng: &Engine) {
-    eng.set_rule("(1) lists of 1..8 data frames interleaved with skippable frames (all 16 magics, payload 0..64 KiB) through decode_all / decode_all_to_vec with targets {exact, +k, -k, 0}, vectors with existing content, and faults (truncated skippable header/payload, trailing garbage, garbage between frames, truncated last frame); (2) every strict prefix of a frame (all cuts for frames <= 4 KiB, structural boundaries +-1 and 64 points otherwise) through decode_blocks, StreamingDecoder, decode_all, decode_from_to; non-trivial = list with >= 1 skippable and >= 2 data frames, or a prefix family over a frame with a compressed block or a checksum; distinct by input hash");
+    eng.set_rule("(1) lists of 1..8 data frames interleaved with skippable frames (all 16 magics, payload 0..64 KiB) through decode_all / decode_all_to_vec with targets {exact, +k, -k, 0}, vectors with existing content, and faults (truncated skippable header/payload, trailing garbage, garbage between frames, truncated last frame); (2) every strict prefix of a frame (all cuts for frames <= 4 KiB, structural boundaries +-1 and 64 points otherwise) through decode_blocks, StreamingDecoder, decode_all, decode_from_to, each on a new decoder and on one that completed a checksummed frame before; non-trivial = list with >= 1 skippable and >= 2 data frames, or a prefix family over a frame with a compressed block or a checksum; distinct by input hash");
     eng.assume("an empty input is zero frames for decode_all (valid); decode_all_to_vec may use all spare capacity of the vector");
     let tier = eng.tier;
     let n_multi = eng.tier.pick(8_000, 150_000);
